@@ -18,15 +18,16 @@
                          polynomial vanishes"; membership of a convex primitive flips between
                          lattice neighbours only across such a zero or a sign change.
 
-   State = one case <<law group, objects, transforms, point>>; every case is an initial state,
-   Next walks the point to its lattice neighbours (so TLC reports states and transitions). *)
+   State = one case <<law group, objects, transforms, point>>; the initial states put the point
+   at the low corner, Next walks it over the whole half-lattice cube (states = cases). *)
 EXTENDS Solids, TLC
 
 CONSTANT Big      \* FALSE: quick ranges, TRUE: thorough ranges
 
 Rng == IF Big THEN 3 ELSE 2
-Coords == (-2 * Rng)..(2 * Rng)                 \* half-lattice: coordinate = c/2
+Coords == (IF Big THEN -5 ELSE -3)..(IF Big THEN 5 ELSE 3)      \* half-lattice: coordinate = c/2
 Pts == {<<x, y, z, 2>> : x \in Coords, y \in Coords, z \in Coords}
+PtsTf == {P \in Pts : Abs(P[1]) <= 3 /\ Abs(P[2]) <= 2 /\ Abs(P[3]) <= 2}
 Par0 == [tolinv |-> 1000000000, scale |-> 96]    \* zero tolerance: near = on a surface
 
 Prims ==
@@ -54,7 +55,13 @@ Polys1 ==
    [k |-> "polyprism4", z |-> <<-2, 0, 0, 2>>, ro |-> <<2, 2, 1, 1>>, ri |-> <<>>, ea |-> <<>>],
    [k |-> "polyprism4", z |-> <<-2, 0, 0, 2>>, ro |-> <<2, 2, 2, 2>>, ri |-> <<1, 1, 1, 1>>, ea |-> <<2, 2>>]}
 Objs == Prims \cup Solids1 \cup Polys1
-Leaves2 == IF Big THEN Objs ELSE {o \in Prims : o.k \in {"box", "sphere", "cone", "genprism", "ell"}} \cup Polys1
+Leaves2 == IF Big THEN {o \in Prims : o.k \in {"box", "sphere", "cone", "genprism", "ell", "trd"}} \cup Polys1
+           ELSE {o \in Prims : \/ o.k = "genprism"
+                               \/ o.k = "ell" /\ o.r[1] = 1
+                               \/ o.k = "cone" /\ o.hh = 2 /\ o.rlo = 2
+                               \/ o.k = "box" /\ o.h[1] = 2 /\ o.h[2] = 3}
+                \cup {o \in Polys1 : o.ri # <<>>}
+LeavesB == {o \in Leaves2 : o.k \in {"box", "cone", "polycone"} \/ (o.k = "genprism" /\ o.hh = 1)}
 
 \* ---- the exact transform set
 Perm3 == {<<1, 2, 3>>, <<1, 3, 2>>, <<2, 1, 3>>, <<2, 3, 1>>, <<3, 1, 2>>, <<3, 2, 1>>}
@@ -74,7 +81,9 @@ Trans == {<<0, 0, 0>>, <<1, 0, -1>>, <<5, -5, 0>>}
 Tfs1 == {[m |-> m, den |-> 1, t |-> t] : m \in SignedPerms, t \in IF Big THEN Trans ELSE {<<1, 0, -1>>}}
 Tfs5 == {[m |-> m, den |-> 5, t |-> t] : m \in (IF Big THEN PythMats ELSE {m \in PythMats : m[3][3] # 0}), t \in {<<0, 0, 0>>, <<5, -5, 0>>}}
 Tfs == Tfs1 \cup Tfs5
-TfsSmall == {t \in Tfs1 : t.m[1][2] # 0 /\ t.m[2][3] = 1} \cup {t \in Tfs5 : t.m[1][1] = 3 /\ t.t[1] = 5}
+TfsSmall == {t \in Tfs1 : t.m[1][2] = -1 /\ t.m[2][3] = 1 /\ t.m[3][1] = 1 /\ t.t[1] = 1}
+              \cup {t \in Tfs5 : t.m[1][1] = 3 /\ t.m[2][2] = 3 /\ t.m[3][3] = 5 /\ t.t[1] = 5}
+TfsGen == IF Big THEN Tfs ELSE {t \in Tfs5 : t.m[3][3] = 5 /\ t.t[1] = 5} \cup {t \in Tfs1 : t.m[1][1] + t.m[2][2] + t.m[3][3] = 1}
 \* composition t1 o t2 (t2's translation a multiple of den1 so that it stays integral)
 Compose(t1, t2) ==
   LET mt == Mul(t1.m, t2.t) IN
@@ -128,19 +137,21 @@ AltOK(o, P) ==
     [] OTHER -> TRUE
 WedgeOK(o, P) == (Quadrant(P) # -1) => (InSolid(o, P) = (((Quadrant(P) - o.s) % 4) < o.w))
 
+Corner(S) == CHOOSE q \in S : \A r \in S : q[1] <= r[1] /\ q[2] <= r[2] /\ q[3] <= r[3]
 VARIABLES grp, a, b, t1, t2, p
 vars == <<grp, a, b, t1, t2, p>>
 T0 == CHOOSE t \in Tfs1 : TRUE
 O0 == CHOOSE o \in Prims : TRUE
 
 Init ==
-  \/ grp = "bool" /\ a \in Leaves2 /\ b \in Leaves2 /\ t1 \in TfsSmall /\ t2 = T0 /\ p \in Pts
-  \/ grp = "tf" /\ a \in Leaves2 /\ b = O0 /\ t1 \in Tfs /\ t2 \in TfsSmall /\ p \in Pts
-  \/ grp = "alt" /\ a \in Objs \cup Wedges /\ b = O0 /\ t1 = T0 /\ t2 = T0 /\ p \in Pts
+  \/ grp = "bool" /\ a \in Leaves2 /\ b \in LeavesB /\ t1 \in TfsSmall /\ t2 = T0 /\ p = Corner(Pts)
+  \/ grp = "tf" /\ a \in Leaves2 /\ b = O0 /\ t1 \in TfsGen /\ t2 \in TfsSmall /\ p = Corner(PtsTf)
+  \/ grp = "alt" /\ a \in Objs \cup Wedges /\ b = O0 /\ t1 = T0 /\ t2 = T0 /\ p = Corner(Pts)
+\* the point walks from the low corner over the whole point set of the group
 Next ==
-  /\ \E i \in 1..3, d \in {-2, 2} :
-        /\ p[i] + d \in Coords
-        /\ p' = [p EXCEPT ![i] = @ + d]
+  /\ \E i \in 1..3 :
+        /\ [p EXCEPT ![i] = @ + 1] \in (IF grp = "tf" THEN PtsTf ELSE Pts)
+        /\ p' = [p EXCEPT ![i] = @ + 1]
   /\ UNCHANGED <<grp, a, b, t1, t2>>
 Spec == Init /\ [][Next]_vars
 
